@@ -251,7 +251,7 @@ def post_scenarios(ctx):
             for z in range(-zr, zr + 1):
                 out.append(make_post(rnd, dim, force=(z, sd), zr=zr))
     n_sweep = len(out)
-    for _ in range(40 if ctx.quick else 600):
+    for _ in range(40 if ctx.quick else 400):
         out.append(make_post(rnd, rnd.choice([1, 2, 2, 3]), zr=zr))
     return out, n_sweep
 
@@ -444,7 +444,7 @@ def sur_scenarios(ctx):
     rnd = random.Random(ctx.seed * 104729 + 7)
     # a history is worth replaying if it asks something after the GP exists
     useful = [h for h in hists if any(e[0] == "update" for e in h[1]) and h[1][-1][0] in ("predict", "gradients", "update", "optimize")]
-    n_take = 70 if ctx.quick else 1200
+    n_take = 70 if ctx.quick else 900
     if len(useful) > n_take:
         # keep every history that ends in a fast-path query after a change made while a cache existed (the
         # transitions on which the two cache rules differ), fill up with a seeded sample of the rest
@@ -566,9 +566,9 @@ def record_bolfi(sc):
             bo = elfi.BOLFI(d, batch_size=1, initial_evidence=sc["n_init"], update_interval=sc["interval"],
                             bounds={n: (-2, 2) for n in names}, target_model=tm, seed=seed % (2 ** 31), **kw)
             with contextlib.redirect_stdout(io.StringIO()):
-                bo.fit(n_evidence=sc["n1"], bar=False)
+                bo.fit(n_evidence=sc["n1"], threshold=sc.get("thr"), bar=False)
                 bo.sample(sc["n_samples"], algorithm=sc["alg"], n_chains=2, threshold=sc.get("thr"))
-                bo.fit(n_evidence=sc["n2"], bar=False)
+                bo.fit(n_evidence=sc["n2"], threshold=sc.get("thr"), bar=False)
                 bo.sample(sc["n_samples"], algorithm=sc["alg"], n_chains=2, threshold=sc.get("thr"))
     except Hang:
         info = dict(res="hang", exc="")
@@ -582,11 +582,10 @@ def record_bolfi(sc):
 def bolfi_scenarios(ctx):
     rnd = random.Random(ctx.seed * 31 + 5)
     out = []
-    # (dim, sampler, acquisition, threshold given?)  NUTS in one dimension is left out: mcmc.nuts itself breaks there
-    # under numpy 2 (float() of a 1-element array, finding F12 of C09/C11), before the surrogate matters
+    # (dim, sampler, acquisition, threshold given?)
     combos = ([(2, "metropolis", "uniform", True), (3, "nuts", "lcbsc", False)] if ctx.quick else
               [(1, "metropolis", "uniform", True), (2, "metropolis", "lcbsc", False), (2, "nuts", "uniform", True),
-               (3, "nuts", "lcbsc", True), (3, "metropolis", "uniform", False), (1, "metropolis", "lcbsc", True)])
+               (3, "nuts", "lcbsc", True), (3, "metropolis", "uniform", False), (1, "nuts", "lcbsc", True)])
     for dim, alg, acq, thr in combos:
         out.append(dict(part="bolfi", dim=dim, alg=alg, acq=acq, seed=rnd.randint(0, 2 ** 30), n_init=3, interval=rnd.choice([2, 3]),
                         n1=5, n2=7 if ctx.quick else 9, n_samples=16 if ctx.quick else 60, thr=1.5 if thr else None))
